@@ -169,6 +169,12 @@ def api_variants(R, B, rng):
             case(f'store_address-{fname}', lambda: B.Builder().store_address(arg), want,
                  lambda s: [('load_address', (lambda x: (x.wc, x.hash_part))(s.load_address()), (wc, hp))], {'wc': wc})
         R.check(a.to_cell().bits.to01() == want and a.to_tl_account_id() == {'workchain': wc, 'id': hp.hex()}, 'api-variant-value-Address.to_cell', 'Address.to_cell / to_tl_account_id differ', {'wc': wc})
+    # byte strings of every kind the store accepts
+    for n in (0, 1, 17, 127):
+        d = rng.randbytes(n)
+        for fname, x in (('bytes', d), ('bytearray', bytearray(d)), ('memoryview', memoryview(d)), ('memoryview-slice', memoryview(bytearray(b'..' + d + b'.'))[2:2 + n])):
+            case(f'store_bytes-{fname}', lambda: B.Builder().store_bit(1).store_bytes(x).store_bit(0), '1' + bits_of_bytes(d) + '0',
+                 lambda s: [('bit', s.load_bit(), 1), ('preload_bytes', s.preload_bytes(n), d), ('load_bytes', s.load_bytes(n), d), ('bit', s.load_bit(), 0)], {'n': n})
     # Builder.to_cell / to_slice are snapshots with the builder's content
     b = B.Builder().store_uint(0x5A, 8).store_ref(B.Builder().store_uint(3, 2).end_cell())
     c, sl = b.to_cell(), b.to_slice()
